@@ -872,6 +872,16 @@ def translate(path=None) -> str:
             return True
         if not guarded(g.body, False):
             raise TranslatorError("tree.py: gather_token parks or appends a token before `token.verify(self.public_key)`")
+        u = tfns.get("unserialize_public")
+        if u is None:
+            raise TranslatorError("tree.py: TokenTree.unserialize_public not found")
+        utxt = _text(normalise(u, [a.arg for a in u.args.args], {}, fold_returns=True))
+        if utxt != ("v0 = True\n"
+                    "for v1 in range(0, len(s), 64 + self.public_key.get_signature_length()):\n"
+                    "    v0 &= self.gather_token(Token.unserialize(s, self.public_key, offset=v1)) is not None\n"
+                    "return v0"):
+            raise TranslatorError("tree.py: unserialize_public does not pass every serialized token to gather_token "
+                                  "and fold the results:\n" + utxt)
         woken = [ast.unparse(n) for n in ast.walk(tfns["_append_chain_reaction_token"]) if isinstance(n, ast.Call)]
         if not any(w_.startswith("self.gather_token(") for w_ in woken) or \
                 sum(1 for w_ in woken if w_.startswith(("self._append_chain_reaction_token(",))) > 0:
